@@ -89,7 +89,12 @@ CHECKS = {
     "C11": dict(
         level="exploration",
         rule=ADV + "Oracle: HandleConnectionClosed exactly once per connection object by the end of the run, and within ten virtual "
-             "minutes of its transport being closed. non-trivial = >= 2 close causes in one run; distinct = hash of the script",
+             "minutes of its transport being closed. non-trivial = >= 2 close causes in one run; distinct = hash of the script. "
+             "TestC11Hub: 3 real hubs, cuts / half cuts / cancel / unregister / disconnect, restarts behind a dead link, a quarter of the "
+             "scenarios with simultaneous dials of both hubs of each pair and a logger that is slow where the replaced connection is "
+             "closed or a connection completes (the end of the replaced connection and the set-up of the kept one in either order); "
+             "oracle at rest: last of set-up/disconnected is 'set up' exactly when a completed connection is registered, no more "
+             "disconnects than connections, both hubs agree",
         runs=[dict(engine="shipsim", test="TestC11", quick=dict(checks=40000, shards=4, timeout=600),
                    thorough=dict(checks=1600000, shards=12, timeout=3000)),
               dict(engine="hubnet", test="TestC11Hub", shrinktime="1s", quick=dict(checks=4, shards=4, timeout=1200),
